@@ -26,7 +26,7 @@ RULE = ("geometry: (48 signed permutations + 2 rotations + shear + "
         "x1; thorough: 4x3x3); layout: 3-D / 4-D(2) / 4-D(3) / RGB x stored "
         "dtypes {u8,i8,i16,u16,i32,u32,u64,f32,f64} x header scaling {none, "
         "(2,1), (1,-1024), (1,0.5), (0.5,0)} x ignore_scaling x input_max "
-        "on 3 affines; headers whose qform/pixdim differ from the sform; sharding strings {None, '1,1,0', '0,0,0', '2,3,1', "
+        "on 3 affines; headers whose qform/pixdim differ from the sform; a second run for another volume into the same directory (fails leaving the pair untouched, or writes a consistent pair); sharding strings {None, '1,1,0', '0,0,0', '2,3,1', "
         "malformed...} x gzip. Checks: info size/channels/resolution/"
         "data_type, imperfect-type status, files == return values, "
         "T*((i+0.5)*res) == 1e6*A*i on the 27 voxels {0,1,n-1}^3, compact "
@@ -280,6 +280,55 @@ def _eval_in(col, case, d):
     except Exception as exc:
         bad("compact-url-form/exception/" + type(exc).__name__, "a string",
             repr(exc)[:200])
+    if case.get("second_run"):
+        # the destination now holds info + transform of this volume; the
+        # same command is run for ANOTHER volume into the same directory:
+        # it either fails and leaves the pair untouched, or succeeds and
+        # writes a pair that describes the other volume
+        def snap():
+            return {n: open(os.path.join(dest, n), "rb").read()
+                    for n in ("info_fullres.json", "transform.json")}
+        before = snap()
+        B = make_affine(np.array([[0, 1, 0], [0, 0, -1], [1, 0, 0]], float),
+                        (0.25, 4, 1.5), (-3, 8, 0.5))
+        arr2 = build_array((2, 5, 3), "3d", "uint16")
+        path2 = os.path.join(d, "w.nii")
+        img2 = nibabel.Nifti1Image(arr2, B, dtype=arr2.dtype)
+        img2.header.set_data_dtype(arr2.dtype)
+        nibabel.save(img2, path2)
+        fresh = os.path.join(d, "fresh")
+        try:
+            with sandbox.quiet():
+                st_fresh = volume_reader.volume_file_to_info(
+                    path2, fresh, ignore_scaling=False, input_min=None,
+                    input_max=None, options={})
+                try:
+                    st2 = volume_reader.volume_file_to_info(
+                        path2, dest, ignore_scaling=False, input_min=None,
+                        input_max=None, options={})
+                    failed = bool(st2) and st2 != st_fresh
+                except Exception:
+                    failed = True
+            after = snap()
+            want = {n: open(os.path.join(fresh, n), "rb").read()
+                    for n in ("info_fullres.json", "transform.json")}
+            if failed:
+                if after != before:
+                    bad("second-run/failed-but-changed-the-existing-files",
+                        "info and transform of the first volume untouched",
+                        sorted(n for n in after if after[n] != before[n]))
+            else:
+                wrong = sorted(n for n in after if json.loads(after[n])
+                               != json.loads(want[n]))
+                if wrong:
+                    bad("second-run/succeeded-but-files-do-not-describe-"
+                        "the-new-volume", "info and transform of the "
+                        "second volume", wrong)
+        except Exception as exc:
+            bad("second-run/exception/" + type(exc).__name__, "outcome",
+                repr(exc)[:200])
+        finally:
+            sandbox.drop_captured_exit_handlers()
     col.ev(1, nontriv, kind + ("-ok" if ok else "-bad"))
 
 
@@ -348,6 +397,14 @@ def cases(tier):
                         "layout": "3d", "dtype": "uint8", "scaling": None,
                         "ignore_scaling": False, "input_max": None,
                         "sharding": s, "gzip": gz, "nontrivial": True})
+    # a second run for another volume into the same directory
+    for name, m in (mats[0], mats[9], mats[17]):
+        out.append({
+            "kind": "geometry", "direction": name,
+            "affine": make_affine(m, (0.5, 2, 3), (10, -20, 5.5)).tolist(),
+            "shape": [3, 4, 5], "layout": "3d", "dtype": "uint8",
+            "scaling": None, "ignore_scaling": False, "input_max": None,
+            "second_run": True, "nontrivial": True})
     for s in ("1,1", "a,b,c", "1,1,0,0", "-1,1,0", "1;1;0"):
         out.append({"kind": "sharding", "affine": A, "shape": [4, 4, 4],
                     "layout": "3d", "dtype": "uint8", "scaling": None,
